@@ -16,7 +16,11 @@ R1 == B("j", "r1")
 RECURSIVE SortedKeys(_)
 SortedKeys(K) == IF K = {} THEN <<>>
                  ELSE LET m == CHOOSE k \in K : \A j \in K : KeyOrd(k) <= KeyOrd(j) IN <<m>> \o SortedKeys(K \ {m})
-HonestAtt(s) == Att([i \in 1..s.threshold |-> Sg(SortedKeys(EnabledKeys(s.attesters))[i])])
+\* (when one key is registered under several spellings the distinct keys may not reach the threshold: the service
+\* then signs with all it has, and the attestation is simply not a quorum)
+HonestAtt(s) == LET ks == SortedKeys(EnabledKeys(s.attesters))
+                    n  == IF s.threshold <= Len(ks) THEN s.threshold ELSE Len(ks)
+                IN  Att([i \in 1..n |-> Sg(ks[i])])
 
 AllAccounts == {"a1", "a2", "a3", "a4", "a5", "a6", "a7", "a8"}
 Bal0(f(_))  == [a \in AddrSyms |-> IF a \in AllAccounts THEN f(a) ELSE 0]
